@@ -185,6 +185,10 @@ def main():
                         if op[0] == 'w':
                             LOG.append(['run', op[1], npending(), core.local.db_context_counter])
                             T(marker=op[1], poison=bool(op[2]))
+                        elif op[0] == 'f':
+                            core.flush()                                   # explicit flush: INSERTs go out, transaction stays open
+                        elif op[0] == 'q':
+                            orm.select(t.id for t in T)[:]                 # a query: auto-flush of pending changes first
                         else:
                             core.commit()
                     if end == 'yield': yield 1
@@ -196,7 +200,14 @@ def main():
             def consume():
                 it = g()
                 state['finished'] = False
-                for _ in range(len(steps)):
+                for k in range(len(steps)):
+                    if k and case.get('interleave'):
+                        # while the generator is suspended the same thread runs another, read-only db_session
+                        # (it gets the thread's pooled connection and rolls it back on release)
+                        keep = len(LOG)
+                        with orm.db_session:
+                            orm.select(t.id for t in T)[:]
+                        del LOG[keep:]          # the other session's own commit() call is not part of the generator's trace
                     try: next(it)
                     except StopIteration:
                         state['finished'] = True
